@@ -60,12 +60,19 @@ def describe (c : Cal) : String :=
 
 def handle (s : St) (op : String) (args : List Sexp) : Option (St × String) := do
   match op, args with
-  -- `newd`: the same calendar, the caller handed the holidays over as `datetime.date` / datetimes with a time of day
-  -- `newt`: the same calendar, the caller handed the range endpoints over with a time of day (a range endpoint is a day)
-  | "new", [t0, t1, we, hol, adj] | "newd", [t0, t1, we, hol, adj] | "newt", [t0, t1, we, hol, adj] =>
+  -- every `new*` line goes through `mkCalT`, the constructor that FLOORS the instants it is handed (the object boundary, C05-D2/D3):
+  -- `new`:  holidays and range endpoints are midnight datetimes (`day * DAYUS`)
+  -- `newd`: the caller handed the holidays over as `datetime.date` (even positions: midnight) / datetimes at 09:30 (odd positions)
+  -- `newt`: the caller handed the range endpoints over with a time of day (t0 at 09:00, t1 at 17:30)
+  -- `newo`: t0, t1 and the holidays are given as instants (µs = ordinal * DAYUS + time of day), any time of day
+  | "new", [t0, t1, we, hol, adj] | "newd", [t0, t1, we, hol, adj] | "newt", [t0, t1, we, hol, adj] | "newo", [t0, t1, we, hol, adj] =>
       let t0 ← t0.toInt?; let t1 ← t1.toInt?; let we ← intList we; let hol ← intList hol
       if degenerate we then none
-      let c0 : Cal := { t0, t1, weekend := we, hol, adj := .m, month := ymKey }
+      let (t0, t1) := if op = "newo" then (t0, t1) else if op = "newt" then (t0 * DAYUS + 32400000000, t1 * DAYUS + 63000000000)
+                      else (t0 * DAYUS, t1 * DAYUS)
+      let hol := if op = "newo" then hol else if op = "newd" then hol.zipIdx.map fun (h, i) => h * DAYUS + (if i % 2 = 0 then 0 else 34200000000)
+                 else hol.map (· * DAYUS)
+      let c0 : Cal := mkCalT ymKey { hol := some hol, weekend := some we, t0 := some t0, t1 := some t1 }
       let a ← adjOf c0 adj
       let c : Cal := { c0 with adj := a }
       pure ({ s with cur := some c, tbl := c.bdays }, "ok N")
